@@ -96,6 +96,8 @@ def strategy_(draw, tier):
                          payload=payload, old=expect_old))
     orphans = [list(draw(st.sampled_from(tds))) for _ in range(draw(st.integers(0, 2)))]
     return {"layout": tw.layout, "uid": tw.uid, "days": days, "now": now, "via": via, "usec": usec,
+            # the world's time zone (hours east of UTC): DeletionDate and "now" are both LOCAL time
+            "tz": draw(st.sampled_from([None, None, None, 9, -8, 5.5, -3.5, 14, -12])),
             "ents": ents, "orphans": orphans, "verbose": draw(st.booleans()),
             # the readers take the volume list from $TRASH_VOLUMES when it is set (empty items allowed)
             "tv": draw(st.sampled_from([None, None, "plain", "empties"])),
@@ -135,7 +137,8 @@ def run_case(case):
     tw = build(case)
     now = gen.date_str(case["now"])
     nowclock = now + (".%06d" % case["usec"] if case.get("usec") else "")
-    spec = tw.spec(cwd="/", now=nowclock if case["via"] == "clock" else "2001-01-01T00:00:00")
+    spec = tw.spec(cwd="/", now=nowclock if case["via"] == "clock" else "2001-01-01T00:00:00",
+                   tz=case.get("tz"))
     env = {"TRASH_DATE": now} if case["via"] == "TRASH_DATE" else {}
     if case.get("tv"):
         allv = ["/"] + list(spec["vols"])
@@ -166,7 +169,8 @@ def run_case(case):
     days = case["days"]
     dcl = "none" if days is None else ("huge" if days > 100000 else str(days) if days in (0, 1, 2, 7, 30, 365) else "rand")
     tags = dict(days=dcl, via=case["via"])
-    out.classes += ["days:" + dcl, "via:" + case["via"], "exit:%d" % res.code]
+    out.classes += ["days:" + dcl, "via:" + case["via"], "exit:%d" % res.code,
+                    "tz:%s" % case.get("tz")]
     for e in case["ents"]:
         out.classes.append("delta:" + e["dc"])
         must_go = True if days is None else (e["old"] and days <= 100000)
